@@ -691,9 +691,6 @@ func (r *runner) exec(o opT) (res resT) {
 			i.ClearCache()
 		}
 	case "Purge":
-		if r.d.cfg.C == "write" {
-			i.FlushCache()
-		}
 		ctx, cancel := context.WithTimeout(context.Background(), 20*time.Second)
 		n, err := i.Purge(ctx, buildQuery(db, o.Pfx, o.Cond))
 		cancel()
@@ -759,6 +756,24 @@ func (r *runner) exec(o opT) (res resT) {
 	return res
 }
 
+// execGuarded reports a call that does not return (patience: 12 s, Tick excluded) as a panic text.
+func (r *runner) execGuarded(o opT) (resT, bool) {
+	if o.Op == "Tick" {
+		return r.exec(o), false
+	}
+	ch := make(chan resT, 1)
+	go func() { ch <- r.exec(o) }()
+	select {
+	case res := <-ch:
+		return res, false
+	case <-time.After(12 * time.Second):
+		res := emptyRes()
+		res.Err = "other"
+		res.Panic = "hang: the call did not return within 12 s"
+		return res, true
+	}
+}
+
 func runHistory(tr *vio.Trace, h int, ci int, sc *script, c cfgT) {
 	d, err := getDB(c)
 	if err != nil {
@@ -790,12 +805,18 @@ func runHistory(tr *vio.Trace, h int, ci int, sc *script, c cfgT) {
 		tr.EmitRaw(map[string]any{"e": "try", "h": h, "c": ci, "op": o.Op})
 		tr.Flush()
 		t0 := nowRel()
-		res := r.exec(o)
+		res, hung := r.execGuarded(o)
 		t1 := nowRel()
 		if t0 > t {
 			t0 = t
 		}
 		tr.EmitRaw(map[string]any{"e": "op", "h": h, "c": ci, "op": o, "t0": t0, "t1": t1, "res": res})
+		if hung {
+			// the stuck goroutine may hold locks of the database: this process cannot go on
+			tr.Close()
+			os.RemoveAll(root)
+			os.Exit(3)
+		}
 	}
 	r.stop()
 	d.empty()
